@@ -430,3 +430,8 @@ func (e *Encoder) fieldsInto(out map[string]any, m protoreflect.Message, prefix 
 	}
 	return nil
 }
+
+// Value encodes one scalar/element value of a field (exported for rule probing).
+func (e *Encoder) Value(fd protoreflect.FieldDescriptor, v protoreflect.Value) (any, error) {
+	return e.scalar(fd, v, FieldAnn(fd), false)
+}
